@@ -815,3 +815,11 @@ package bchutil
 //@   assert after DecodeWIF#1: $k.D == $kd && $kd != nil
 //@   assert after DecodeWIF#1: *$kd == *w.PrivKey.D
 //@   assert after DecodeWIF#1: $ret0.PrivKey != nil && $ret0.PrivKey.D != nil && *$ret0.PrivKey.D == *w.PrivKey.D
+
+//@ lemmafunc bchutil.lemmaChecksumVerifies
+//@   opaque cashaddr.step
+//@   bind after createChecksum#1: $p = payload
+//@   assert after createChecksum#1: forall j :: 0 <= j && j < 8 ==> $ret[j] == cashaddr.dg(cashaddr.cksum(prefix, len(prefix), $p, len($p)), j)
+//@   assert after cat#1: len($ret) == len($p) + 8 && (forall k :: 0 <= k && k < len($p) ==> $ret[k] == $p[k]) && (forall j :: 0 <= j && j < 8 ==> $ret[len($p) + j] == cashaddr.dg(cashaddr.cksum(prefix, len(prefix), $p, len($p)), j))
+//@   assert after cat#1: lemma cashaddr_codeword(prefix, len(prefix), $p, $ret, len($p))
+//@   assert after verifyChecksum#1: $ret
